@@ -700,7 +700,7 @@ func genScript(rng *rand.Rand, subj string) *script {
 		sc.Ops = ops
 	}
 	// directed patterns
-	switch rng.Intn(8) {
+	switch rng.Intn(10) {
 	case 0: // expires unobserved, then extended, then data
 		sc.Ops = append(sc.Ops, op{K: "near", Ms: 3}, op{K: "idle", Ms: 275}, op{K: "far"}, op{K: "deliver"}, op{K: "read"})
 	case 1: // two reads after an expiry
@@ -711,6 +711,10 @@ func genScript(rng *rand.Rand, subj string) *script {
 		sc.Ops = append(sc.Ops, op{K: "past"}, op{K: "deliver"}, op{K: "read"}, op{K: "near", Ms: 500}, op{K: "read"})
 	case 4: // the read deadline expires, then everything is cleared with SetDeadline(zero) while the write deadline is still zero
 		sc.Ops = append(sc.Ops, op{K: "near", Ms: 3}, op{K: "idle", Ms: 275}, op{K: "zero", Via: "all"}, op{K: "deliver"}, op{K: "read"})
+	case 6: // a deadline is extended, the original instant passes unobserved, then a nearer deadline is set: that one counts
+		sc.Ops = append(sc.Ops, op{K: "near", Ms: 3}, op{K: "far"}, op{K: "idle", Ms: 275}, op{K: "near", Ms: 5}, op{K: "read"}, op{K: "read"})
+	case 7: // the same with a blocked reader: parked under the extended deadline, released by the nearer one
+		sc.Ops = append(sc.Ops, op{K: "near", Ms: 3}, op{K: "far"}, op{K: "idle", Ms: 275}, op{K: "park", X: "near", Ms: 5})
 	case 5: // write deadline first, then SetDeadline: the read deadline must be installed
 		sc.Ops = append(sc.Ops, op{K: "wdl", Via: "zero"}, op{K: "past"}, op{K: "zero", Via: "all"}, op{K: "deliver"}, op{K: "read"}, op{K: "park", X: "past"})
 	}
